@@ -15,6 +15,15 @@
 (*         of this run fired; file = shipper file afterwards; objs,        *)
 (*         listed, blabels = bucket afterwards                             *)
 (*   End                                                                   *)
+(* Phase 2 (receive.MultiTSDB scenarios; several tenants, each with its    *)
+(* own TSDB directory and Shipper over the same bucket):                   *)
+(*   MSync  MultiTSDB.SyncAllTenants returned (not judged)                 *)
+(*   Local  observation of the tenant directories: gone = local blocks     *)
+(*          that disappeared while their tenant directory stayed (deleted  *)
+(*          by the local TSDB retention); objs, listed = bucket now        *)
+(*   Prune  MultiTSDB.Prune returned: pruned[i] = [t, local = the blocks   *)
+(*          the removed tenant directory held just before, cur = that      *)
+(*          tenant's external labels]; objs, listed, blabels = bucket now  *)
 (* Verdicts: property-level operators C35_* of BlockLifecycle only.        *)
 (***************************************************************************)
 EXTENDS TraceLib, BlockLifecycle
@@ -57,9 +66,35 @@ Sync == /\ IsEvent("Sync")
               /\ prevFile' = IF e.file.present THEN Range(e.file.uploaded) ELSE prevFile
         /\ UNCHANGED <<locals, uc, cur>>
 
+(* ---- phase 2 ---- *)
+MSync == IsEvent("MSync") /\ UNCHANGED <<everComplete, locals, uc, cur, prevFile>>
+
+(* local-block-deleted-only-after-shipped: the shipper file guards the local retention ("the shipper never records  *)
+(*    as uploaded a block that was not seen complete in the bucket"), so a local block may only disappear after it  *)
+(*    was complete in the bucket                                                                                    *)
+Local == /\ IsEvent("Local")
+         /\ LET e == Trace[l]
+                seen == everComplete \cup CompleteBlocks(Range(e.objs), Range(e.listed))
+            IN /\ CaseReject(l, e, IF C35_LocalGoneUnseen(Range(e.gone), seen) = {} THEN {} ELSE {"local-block-deleted-only-after-shipped"})
+               /\ everComplete' = seen
+         /\ UNCHANGED <<locals, uc, cur, prevFile>>
+
+(* tenant-pruned-only-when-all-blocks-shipped: an idle tenant's directory is removed only when every non-empty      *)
+(*    block in it is in the bucket with all its files and the tenant's external labels ("every local non-empty     *)
+(*    block ... is present in the bucket with all its files and the current external labels", applied at the moment *)
+(*    the local copy is destroyed)                                                                                  *)
+LocalsOf(p) == { [b |-> x.b, level |-> x.level, empty |-> x.empty, files |-> Range(x.files)] : x \in Range(p.local) }
+Prune == /\ IsEvent("Prune")
+         /\ LET e == Trace[l]
+                bad == { p.t : p \in { q \in Range(e.pruned) :
+                           C35_PrunedUnshipped(LocalsOf(q), Range(e.objs), Range(e.listed), Range(e.blabels), Range(q.cur)) # {} } }
+            IN /\ CaseReject(l, e, IF bad = {} THEN {} ELSE {"tenant-pruned-only-when-all-blocks-shipped"})
+               /\ everComplete' = everComplete \cup CompleteBlocks(Range(e.objs), Range(e.listed))
+         /\ UNCHANGED <<locals, uc, cur, prevFile>>
+
 End == IsEvent("End") /\ UNCHANGED <<everComplete, locals, uc, cur, prevFile>>
 
-TraceNext == Header \/ Mut \/ Sync \/ End
+TraceNext == Header \/ Mut \/ Sync \/ MSync \/ Local \/ Prune \/ End
 TraceSpec == TraceInit /\ [][TraceNext]_tvars
 TraceAccepted == TLCGet("stats").diameter = TraceLen + 1
 =============================================================================
